@@ -1,12 +1,15 @@
 #!/bin/bash
-# tools/seedsweep.sh [seed-dir ...]  — run every stored seeded change against the check of its property
-# (property = directory name prefix), sequentially; results appended to seeded/RESULTS.tsv
+# tools/seedsweep.sh [-j N] [seed-dir ...] — run stored seeded changes against the check of their property
+# (property = directory name prefix), N at a time; one result line each appended to seeded/RESULTS.tsv
 cd /verif
+J=1; [ "${1:-}" = "-j" ] && { J=$2; shift 2; }
 seeds=("$@"); [ ${#seeds[@]} -gt 0 ] || seeds=(seeded/C*)
-for d in "${seeds[@]}"; do
-  d=${d%/}; b=$(basename "$d"); prop=${b%%-*}
-  [ -f "$d/patch.diff" ] || continue
+run1() {
+  d=${1%/}; b=$(basename "$d"); prop=${b%%-*}
+  [ -f "$d/patch.diff" ] || return
   out=$(tools/seedtest.sh "$d" "$prop" quick 2>&1 | tail -1)
-  sig=$(grep -E "^VIOLATION" ".cache/seedtest-$b-$prop.log" | head -3 | sed 's/.*replay=\/verif\/out\///' | tr '\n' ' ')
+  sig=$(grep -E "^VIOLATION" ".cache/seedtest-$b-$prop.log" | head -3 | sed 's/.*\/out\///' | tr '\n' ' ')
   printf "%s\t%s\t%s\t%s\n" "$(date +%H:%M)" "$b" "$out" "$sig" | tee -a seeded/RESULTS.tsv
-done
+}
+export -f run1
+printf "%s\n" "${seeds[@]}" | xargs -P "$J" -I{} bash -c 'run1 {}'
